@@ -9,7 +9,7 @@ UNIT['dumps'] = ['Rule::StatusKind', 'CAPITask', 'CAPIBuildEngineDelegate', 'llb
 UNIT['types'] = dict(_c.UNIT['types'], **{'TaskInterface': 'struct TaskInterface', 'core::TaskInterface': 'struct TaskInterface', 'llb_rule_status_kind_t': 'int'})
 UNIT['by_value'] = list(_c.UNIT['by_value']) + ['struct TaskInterface', 'struct llb_task_interface_t', 'struct llb_data_t']
 UNIT['no_translate'] = ['delegate']
-UNIT['need_fields'] = {}
+UNIT['need_fields'] = {'llb_rule_t_': ['context', 'create_task', 'update_status', 'is_result_valid']}
 UNIT['calls'] = dict(_c.UNIT['calls'], **{
     'm:TaskInterface::delegate': 'cb_ti_delegate', 'm:@struct TaskInterface::delegate': 'cb_ti_delegate',
     'fp:start': 'cb_start', 'fp:provide_value': 'cb_provide_value', 'fp:inputs_available': 'cb_inputs_available', 'fp:create_task': 'cb_create_task',
